@@ -427,6 +427,83 @@ def unit_validity(name: str) -> Dict[str, Any]:
     return finish_unit(_Unit(ex), extra)
 
 
+def unit_add_segment() -> Dict[str, Any]:
+    """Memory_add_segment (before any page exists - the order _run_native uses): a rejected or failed call changes
+    nothing; an accepted call appends exactly the range [start, start+length) - V' = V u range - keeps the list
+    invariant (count <= capacity, ranges well formed: the overflow test) and clears the sorted flag."""
+    fns = load_functions()
+    name = 'Memory_add_segment'
+    if name not in fns:
+        raise Undecided(f'function {name} not found in _fjcore.c')
+    nm = NativeModel(64)
+    sm = SegModel(nm)
+    ex = CExec(Linear(fns[name]), name=name)
+    st = nm.st0.fork()
+    sm.assume_defined(st)
+    st.assume(st.M['f:segment_capacity'] >= 0)
+    st.assume(st.M['f:segment_capacity'] <= z3.BitVecVal(SEG_BOUND, 64))
+    st.M['slots_nonnull'] = z3.BoolVal(False)  # precondition: no page has been allocated yet
+    st.vars['self'], st.vars['args'] = Ptr('mem'), Ptr('pyobj', 'args')
+    st.vars['PyExc_ValueError'] = Ptr('pyobj', 'PyExc_ValueError')
+    a0, l0 = z3.BitVec('api_start_word', 64), z3.BitVec('api_length_words', 64)
+
+    def parse(e, s0, args, node):
+        fail = s0.fork()
+        fail.M['pyerr'] = z3.BoolVal(True)
+        yield (fail, i32(0))
+        ok = s0.fork()
+        for p, val in zip(args[2:], (a0, l0)):
+            if not (isinstance(p, Ptr) and isinstance(p.where, tuple) and p.where[0] == 'local'):
+                raise Undecided('PyArg_ParseTuple out-parameter is not the address of a local')
+            ok.vars[p.where[1]] = val
+        ok.ghost['parsed'] = True
+        yield (ok, i32(1))
+
+    def set_error(e, s0, args, node):
+        s = s0.fork()
+        s.M['pyerr'] = z3.BoolVal(True)
+        yield (s, None)
+
+    def no_memory(e, s0, args, node):
+        s = s0.fork()
+        s.M['pyerr'] = z3.BoolVal(True)
+        yield (s, NULL)
+
+    def realloc(e, s0, args, node):
+        """[A] realloc(segments, n): NULL (nothing changes) or a block of n bytes holding the old entries"""
+        yield (s0.fork(), NULL)
+        s = s0.fork()
+        s.ghost['realloc_bytes'] = args[1]
+        yield (s, Ptr('seg', ('segments', u64(0)), z3.BoolVal(False)))
+
+    ex.contracts['PyArg_ParseTuple'] = ex.contracts['_PyArg_ParseTuple_SizeT'] = parse
+    ex.contracts['PyErr_SetString'] = set_error
+    ex.contracts['PyErr_NoMemory'] = no_memory
+    ex.contracts['realloc'] = realloc
+    ex.contracts['Py_INCREF'] = ex.contracts['_Py_INCREF'] = lambda e, s0, args, node: iter([(s0, None)])
+    extra: List[Obl] = [Obl(f'{name}:cover.requires', list(st.pc), None, 'cover')]
+    x, k = z3.BitVec('x_as', 64), z3.BitVec('k_as', 64)
+    n0 = st.M['f:segment_count']
+    for i, (s, where) in enumerate(ex.run(st, 0, stop=set())):
+        if where[0] != 'return':
+            raise Undecided(f'{name}: path ended at label {where[1]}')
+        tag = f'{name}:path{i}'
+        ret = where[1]
+        extra.append(Obl(f'{tag}.cover', list(s.pc), None, 'cover'))
+        if ret is NULL or (isinstance(ret, Ptr) and ret.kind == 'null'):
+            extra.append(Obl(f'{tag}.failure_sets_an_error_and_leaves_the_list_unchanged', list(s.pc), z3.And(s.M['pyerr'], s.M['f:segment_count'] == n0, z3.ForAll([k], z3.Implies(z3.And(k >= 0, k < n0), z3.And(z3.Select(s.M['seg_start'], k) == z3.Select(st.M['seg_start'], k), z3.Select(s.M['seg_end'], k) == z3.Select(st.M['seg_end'], k)))))))
+            continue
+        n1 = s.M['f:segment_count']
+        extra.append(Obl(f'{tag}.success_without_pending_error', list(s.pc), z3.Not(s.M['pyerr'])))
+        extra.append(Obl(f'{tag}.appends_exactly_the_requested_range', list(s.pc), z3.And(n1 == n0 + 1, z3.Select(s.M['seg_start'], n0) == a0, z3.Select(s.M['seg_end'], n0) == a0 + l0, z3.ULE(a0, a0 + l0),
+                                                                                     z3.ForAll([k], z3.Implies(z3.And(k >= 0, k < n0), z3.And(z3.Select(s.M['seg_start'], k) == z3.Select(st.M['seg_start'], k), z3.Select(s.M['seg_end'], k) == z3.Select(st.M['seg_end'], k)))))))
+        extra.append(Obl(f'{tag}.list_invariant_kept', list(s.pc), z3.And(n1 <= s.M['f:segment_capacity'], s.M['f:segments_sorted'] == 0)))
+        if 'realloc_bytes' in s.ghost:
+            extra.append(Obl(f'{tag}.realloc_size_covers_the_new_capacity', list(s.pc), z3.And(s.ghost['realloc_bytes'] == s.M['f:segment_capacity'] * 16, s.M['f:segment_capacity'] > n0)))
+    extra.append(Obl(f'{name}:canary', list(st.pc), None, 'canary'))
+    return finish_unit(_Unit(ex), extra)
+
+
 # ----------------------------------------------------------------------------- the run loops
 
 
